@@ -156,46 +156,61 @@ def run(ctx, rep):
     fdec = ctx.func(COLL + ".decref")
     rep.analysed(fadd)
     rep.analysed(fdec)
-    init_count = None
-    for n in A.walk(fadd.node):
-        if isinstance(n, ast.Assign) and isinstance(n.value, ast.List) and len(n.value.elts) == 2:
-            init_count = ctx.try_fold(n.value.elts[1])
-    incr = [n for n in A.walk(fadd.node) if isinstance(n, ast.AugAssign) and isinstance(n.target, ast.Subscript)]
-    inc_ok = len(incr) == 1 and isinstance(incr[0].op, ast.Add) and ctx.try_fold(incr[0].value) == 1 and \
-        ctx.try_fold(incr[0].target.slice) == 1
+    # semantic check: add/decref are interpreted (sa/miniinterp.py, no repository code is run) on every history of
+    # sends and release notices up to length 6; invariant: the slot exists exactly while sends - returned > 0
+    from .. import miniinterp as MI
+    import itertools
+    ops = ("add", "dec1", "dec2", "dec3")
+    histories = 0
+    bad_hist = None
+    for L in range(1, 7):
+        for seq in itertools.product(ops, repeat=L):
+            state = {"_dict": {}, "_lock": object()}
+            out = 0
+            ok_seq = True
+            trace = []
+            for op in seq:
+                if op == "add":
+                    MI.call_method(fadd.node, state, ["k", "OBJ"])
+                    out += 1
+                else:
+                    c = int(op[3])
+                    if c > out:
+                        ok_seq = False
+                        break           # a peer cannot return more references than it holds
+                    try:
+                        MI.call_method(fdec.node, state, ["k", c])
+                    except MI.Raised as r:
+                        bad_hist = (trace + [op], "decref raised %s while %d reference(s) were outstanding" % (r.name, out))
+                        break
+                    out -= c
+                trace.append(op)
+                present = "k" in state["_dict"]
+                if present != (out > 0):
+                    bad_hist = (list(trace), "after this history %d reference(s) are outstanding but the owner %s the object"
+                                % (out, "still holds" if present else "has dropped"))
+                    break
+                if present and state["_dict"]["k"][0] != "OBJ":
+                    bad_hist = (list(trace), "the stored object changed")
+                    break
+            if ok_seq and bad_hist is None:
+                histories += 1
+            if bad_hist:
+                break
+        if bad_hist:
+            break
+    rep.extra.setdefault("table_rows", {})["R10.4 add/decref histories"] = histories
+    rep.ob("R10.4", "RefCountingColl: (initial count, removal test) is a consistent pair", bad_hist is None,
+           "on all %d histories of sends and release notices (length <= 6) the slot exists exactly while sends - returned > 0"
+           % histories if bad_hist is None else
+           "history %s: %s (%s)" % (" ".join(bad_hist[0]), bad_hist[1],
+                                    "an object is dropped while the peer still holds a reference" if "dropped" in bad_hist[1]
+                                    else "an object is never released although every reference was returned"),
+           fdec.loc, witness=bad_hist[0] if bad_hist else None, kind="table")
     dprm = A.params(fdec.node)
     cntp = dprm[2]
-    tests = [n for n in A.walk(fdec.node) if isinstance(n, ast.If) and isinstance(n.test, ast.Compare)
-             and cntp in A.names_loaded(n.test)]
-    rel = None
-    if len(tests) == 1 and len(tests[0].test.ops) == 1:
-        t = tests[0].test
-        l, r, op = A.src(t.left), A.src(t.comparators[0]), type(t.ops[0])
-        slotl = isinstance(t.left, ast.Subscript) and ctx.try_fold(t.left.slice) == 1
-        slotr = isinstance(t.comparators[0], ast.Subscript) and ctx.try_fold(t.comparators[0].slice) == 1
-        if slotl and r == cntp:
-            rel = {ast.Lt: "<", ast.LtE: "<="}.get(op)
-        elif slotr and l == cntp:
-            rel = {ast.Gt: "<", ast.GtE: "<="}.get(op)
-    if init_count is None or rel is None:
-        raise AnalysisError("RefCountingColl: cannot extract (initial count, removal test) - representation changed")
-    consistent = (init_count == 0 and rel == "<") or (init_count == 1 and rel == "<=")
-    rep.ob("R10.4", "RefCountingColl: (initial count, removal test) is a consistent pair", consistent and inc_ok,
-           "initial count %d, +1 per further send, removed when stored %s returned: removed exactly when every send has been "
-           "returned" % (init_count, rel) if consistent and inc_ok else
-           "initial count %d with removal test `stored %s returned`%s: %s" % (
-               init_count, rel, "" if inc_ok else " and a non-unit increment",
-               "an object is dropped while the peer still holds a reference (partial release removes the slot)"
-               if (init_count == 0 and rel == "<=") else "an object is never released although every reference was returned"),
-           ctx.loc(tests[0]), kind="table")
-    body_del = [n for n in A.walk(tests[0]) if isinstance(n, ast.Delete)]
-    in_true = body_del and any(A.contains(s, body_del[0]) for s in tests[0].body)
-    subs = [n for n in A.walk(tests[0]) if isinstance(n, ast.AugAssign) and isinstance(n.op, ast.Sub) and A.src(n.value) == cntp]
-    in_false = subs and any(A.contains(s, subs[0]) for s in tests[0].orelse)
-    rep.ob("R10.4", "RefCountingColl.decref: remove on the test's positive branch, subtract the told count otherwise",
-           bool(in_true and in_false),
-           "del self._dict[key] / slot[1] -= count" if in_true and in_false else
-           "decref does not (remove | subtract count) on the two branches of the test", fdec.loc)
+    tests = [n for n in A.walk(fdec.node) if isinstance(n, ast.If)]
+    body_del = [n for n in A.walk(fdec.node) if isinstance(n, ast.Delete)]
     keyp = dprm[1]
     key_ok = all(A.src(n.targets[0].slice) == keyp for n in body_del) if body_del else False
     rep.ob("R10.4", "RefCountingColl.decref: removes the slot of the key it was given", bool(key_ok),
@@ -231,7 +246,8 @@ def run(ctx, rep):
            "return self._dict[key][0]" if okg else "__getitem__ no longer returns the stored object", fget.loc, kind="site")
 
     # ------------------------------------------------------------------ R10.5
-    K.share(ctx, rep, "c11", lambda o: o.rule == "R11.2" and ("is cleared" in o.key), "R10.5", floor=4)
+    K.share(ctx, rep, "c11", lambda o: (o.rule == "R11.2" and "is cleared" in o.key) or
+            (o.rule == "R11.1" and ("runs _cleanup" in o.key or "_cleanup is told" in o.key)), "R10.5", floor=5)
     ctor = K.init_field_ctor(ctx, K.CONN, "_proxy_cache")
     okw = isinstance(ctor, ast.Call) and (A.call_name(ctor) or "").endswith("WeakValueDict")
     rep.ob("R10.5", "Connection._proxy_cache holds proxies weakly (dropping the last user reference finalizes the proxy)", okw,
